@@ -8,6 +8,7 @@ package command
 // (WireDecode) decides what had to be reported.
 
 import (
+	"context"
 	"encoding/binary"
 	"fmt"
 	"math/rand"
@@ -15,6 +16,7 @@ import (
 	"os"
 	"strconv"
 	"testing"
+	"time"
 
 	"github.com/google/gopacket"
 	"github.com/google/gopacket/layers"
@@ -33,6 +35,30 @@ type vfSyncResults struct{ got []scan.Result }
 func (r *vfSyncResults) Put(x scan.Result)        { r.got = append(r.got, x) }
 func (r *vfSyncResults) Chan() <-chan scan.Result { return nil }
 
+// vfAsyncMethod: a scan method built by the command's own constructor delivers its records through its own asynchronous
+// two-stage result channel; frames are therefore processed in batches and the records of a batch are collected afterwards
+// (FIFO order is preserved, so TLC can compare the record sequence with the sequence of reply-shaped frames)
+type vfAsyncProc struct{ m *tcp.ScanMethod }
+
+func (p *vfAsyncProc) ProcessPacketData(data []byte, ci *gopacket.CaptureInfo) error {
+	return p.m.ProcessPacketData(data, ci)
+}
+
+// collect waits until the result stream has been idle for 250 ms (everything was put synchronously before)
+func (p *vfAsyncProc) collect() []scan.Result {
+	var out []scan.Result
+	for {
+		select {
+		case r := <-p.m.Results():
+			out = append(out, r)
+		case <-time.After(250 * time.Millisecond):
+			return out
+		}
+	}
+}
+
+func vfSyncMethod(m *tcp.ScanMethod, _ *vfSyncResults) packet.Processor { return &vfAsyncProc{m: m} }
+
 type vfRcvCfg struct {
 	Scan   string
 	Vpn    bool
@@ -49,7 +75,10 @@ type vfRcv struct {
 }
 
 // vfNewRcv wires filter and processor the way command/*.go does for each scan
-func vfNewRcv(t *testing.T, cfg vfRcvCfg) *vfRcv {
+func vfNewRcv(t *testing.T, cfg vfRcvCfg) *vfRcv { return vfNewRcvMode(t, cfg, false) }
+
+// direct: the processors are constructed directly with a synchronous result channel (per-frame attribution for arbitrary bytes)
+func vfNewRcvMode(t *testing.T, cfg vfRcvCfg, direct bool) *vfRcv {
 	res := &vfSyncResults{}
 	r := &scan.Range{Ports: cfg.Ranges}
 	if cfg.HasNet {
@@ -59,20 +88,41 @@ func vfNewRcv(t *testing.T, cfg vfRcvCfg) *vfRcv {
 	var snap int
 	var proc packet.Processor
 	switch cfg.Scan {
-	case "tcpsyn":
+	case "tcpsyn", "tcpfin", "tcpnull", "tcpxmas", "tcpflags":
+		if !direct {
+			break
+		}
+		if cfg.Scan == "tcpsyn" {
+			filter, snap = tcp.SYNACKBPFFilter(r)
+			proc = tcp.NewScanMethod(tcp.SYNScanType, nil, res, tcp.WithPacketFilterFunc(func(pkt *layers.TCP) bool { return pkt.SYN && pkt.ACK }),
+				tcp.WithPacketFlagsFunc(tcp.EmptyFlags), tcp.WithScanVPNmode(cfg.Vpn))
+		} else {
+			filter, snap = tcp.BPFFilter(r)
+			proc = tcp.NewScanMethod(cfg.Scan, nil, res, tcp.WithPacketFilterFunc(tcp.TrueFilter), tcp.WithPacketFlagsFunc(tcp.AllFlags), tcp.WithScanVPNmode(cfg.Vpn))
+		}
+	}
+	switch {
+	case proc != nil:
+	case cfg.Scan == "tcpsyn":
 		filter, snap = tcp.SYNACKBPFFilter(r)
-		proc = tcp.NewScanMethod(tcp.SYNScanType, nil, res, tcp.WithPacketFilterFunc(func(pkt *layers.TCP) bool { return pkt.SYN && pkt.ACK }),
-			tcp.WithPacketFlagsFunc(tcp.EmptyFlags), tcp.WithScanVPNmode(cfg.Vpn))
-	case "tcpfin", "tcpnull", "tcpxmas", "tcpflags":
+		// built by the command's own constructor (option lists as in tcp_syn.go); only the result channel is replaced by the synchronous one
+		o := &tcpCmdOpts{}
+		o.vpnMode = cfg.Vpn
+		proc = vfSyncMethod(o.newTCPScanMethod(context.Background(), withTCPScanName(tcp.SYNScanType), withTCPPacketFillerOptions(tcp.WithSYN()),
+			withTCPPacketFilterFunc(func(pkt *layers.TCP) bool { return pkt.SYN && pkt.ACK }), withTCPPacketFlags(tcp.EmptyFlags)), res)
+	case cfg.Scan == "tcpfin" || cfg.Scan == "tcpnull" || cfg.Scan == "tcpxmas" || cfg.Scan == "tcpflags":
 		filter, snap = tcp.BPFFilter(r)
-		proc = tcp.NewScanMethod(cfg.Scan, nil, res, tcp.WithPacketFilterFunc(tcp.TrueFilter), tcp.WithPacketFlagsFunc(tcp.AllFlags), tcp.WithScanVPNmode(cfg.Vpn))
-	case "udp":
+		o := &tcpCmdOpts{}
+		o.vpnMode = cfg.Vpn
+		proc = vfSyncMethod(o.newTCPScanMethod(context.Background(), withTCPScanName(cfg.Scan), withTCPPacketFillerOptions(tcp.WithFIN()),
+			withTCPPacketFilterFunc(tcp.TrueFilter), withTCPPacketFlags(tcp.AllFlags)), res)
+	case cfg.Scan == "udp":
 		filter, snap = icmp.BPFFilter(r)
 		proc = udp.NewScanMethod(nil, res, cfg.Vpn)
-	case "icmp":
+	case cfg.Scan == "icmp":
 		filter, snap = icmp.BPFFilter(r)
 		proc = icmp.NewScanMethod(nil, res, cfg.Vpn)
-	case "arp":
+	case cfg.Scan == "arp":
 		filter, snap = arp.BPFFilter(r)
 		proc = arp.NewScanMethod(nil, res)
 	}
@@ -263,11 +313,40 @@ func TestVfReplyShape(t *testing.T) {
 	ranges := []*scan.PortRange{{StartPort: 80, EndPort: 82}, {StartPort: 443, EndPort: 443}}
 	sports := []int{79, 80, 81, 82, 83, 443, 444, 1, 65535}
 	id := 0
+	var batchR *vfRcv
+	var batchFrames [][]int
+	var batchStatus []string
+	flush := func() {
+		if batchR == nil {
+			return
+		}
+		ap := batchR.proc.(*vfAsyncProc)
+		recs := ap.collect()
+		rs := []map[string]interface{}{}
+		for _, x := range recs {
+			rs = append(rs, vfRecOf(batchR.cfg.Scan, []scan.Result{x}))
+		}
+		id++
+		out.write([]map[string]interface{}{{"ev": "ReplyBatch", "id": id, "cfg": batchR.cfg.json(), "frames": batchFrames, "status": batchStatus, "recs": rs}})
+		batchR, batchFrames, batchStatus = nil, nil, nil
+	}
 	emit := func(r *vfRcv, frame []byte) {
+		if _, async := r.proc.(*vfAsyncProc); async {
+			if batchR != r || len(batchFrames) >= 600 {
+				flush()
+				batchR = r
+			}
+			status, _, _ := r.through(frame)
+			batchFrames = append(batchFrames, vfInts(frame))
+			batchStatus = append(batchStatus, status)
+			return
+		}
+		flush()
 		id++
 		status, recs, text := r.through(frame)
 		out.write([]map[string]interface{}{{"ev": "Reply", "id": id, "cfg": r.cfg.json(), "bytes": vfInts(frame), "status": status, "nrec": len(recs), "rec": vfRecOf(r.cfg.Scan, recs), "text": text}})
 	}
+	defer flush()
 	type mode struct {
 		vpn, hasNet, ports bool
 	}
@@ -298,6 +377,14 @@ func TestVfReplyShape(t *testing.T) {
 					pl = []byte{1, 2, 3}
 				}
 				emit(r, vfLink(m.vpn, 0x0800, vfIP4(ihl, 6, []int{0x4000, 0}[rnd.Intn(2)], 1+rnd.Intn(255), src, vfTCP(sp, 40000, fl, doff, pl))))
+			}
+			// histories that differ only in the NS bit (byte 12) while byte 13 stays the same
+			if sc != "tcpsyn" {
+				for _, lo8 := range []int{0x14, 0x12, 0x00, 0xff, 0x29} {
+					for _, fl := range []int{lo8, lo8 | 0x100, lo8, lo8 | 0x100, lo8 | 0x100, lo8} {
+						emit(r, vfLink(m.vpn, 0x0800, vfIP4(5, 6, 0x4000, 64, srcs[0], vfTCP(80, 40000, fl, 5, nil))))
+					}
+				}
 			}
 			// the whole source x port grid with SYN+ACK and RST+ACK, plain and with IP + TCP options
 			for _, src := range srcs {
@@ -360,6 +447,7 @@ func TestVfReplyShape(t *testing.T) {
 		}
 		emit(r, vfLink(false, 0x0800, vfIP4(5, 6, 0, 64, srcs[0], vfTCP(80, 40000, 0x12, 5, nil))))
 	}
+	flush()
 	fmt.Printf("VF_RUNS=%d\n", id)
 }
 
@@ -378,7 +466,7 @@ func TestVfPhantom(t *testing.T) {
 			if sc == "arp" && vpn {
 				continue
 			}
-			r := vfNewRcv(t, vfRcvCfg{Scan: sc, Vpn: vpn})
+			r := vfNewRcvMode(t, vfRcvCfg{Scan: sc, Vpn: vpn}, true)
 			emit := func(frame []byte) {
 				id++
 				status, recs, text := r.process(frame)
@@ -467,6 +555,34 @@ func TestVfPhantom(t *testing.T) {
 					emit(valid)
 				}
 				emit(f)
+			}
+		}
+	}
+	// histories of valid frames through the scan methods as the commands build them (asynchronous results): each record must carry the
+	// fields of its own frame, also when consecutive frames differ in a single header bit
+	for _, sc := range []string{"tcpflags", "tcpfin"} {
+		for _, vpn := range []bool{false, true} {
+			r := vfNewRcv(t, vfRcvCfg{Scan: sc, Vpn: vpn})
+			ap := r.proc.(*vfAsyncProc)
+			var frames [][]int
+			var status []string
+			for k := 0; k < 400; k++ {
+				fl := rnd.Intn(512)
+				for _, f := range []int{fl, fl ^ 0x100, fl ^ (1 << uint(rnd.Intn(8))), fl} {
+					frame := vfLink(vpn, 0x0800, vfIP4(5, 6, 0x4000, 1+rnd.Intn(255), net.IPv4(10, 1, byte(rnd.Intn(4)), byte(1+rnd.Intn(3))), vfTCP(1+rnd.Intn(3), 40000, f, 5, nil)))
+					st, _, _ := r.process(frame)
+					frames = append(frames, vfInts(frame))
+					status = append(status, st)
+				}
+				if len(frames) >= 600 {
+					rs := []map[string]interface{}{}
+					for _, x := range ap.collect() {
+						rs = append(rs, vfRecOf(sc, []scan.Result{x}))
+					}
+					id++
+					out.write([]map[string]interface{}{{"ev": "ReplyBatch", "id": id, "cfg": r.cfg.json(), "frames": frames, "status": status, "recs": rs}})
+					frames, status = nil, nil
+				}
 			}
 		}
 	}
